@@ -1,4 +1,5 @@
 import A2Verif.Model.Hex
+import A2Verif.Drv.Fs
 import A2Verif.Drv.C01
 import A2Verif.Drv.C02
 import A2Verif.Drv.C03
@@ -26,13 +27,14 @@ Registration of driver families.  Stateless family `cNN` lives in `A2Verif/Drv/C
 namespace A2Verif.Drv
 
 structure State where
-  dummy : Unit := ()
+  fs : Fs.St := {}
 
 def State.init : State := {}
 
 def dispatch (st : State) (toks : List String) : State × String :=
   match toks with
   | "ping" :: _ => (st, "pong")
+  | "fs" :: rest => let (f, a) := Fs.handle st.fs rest; ({ st with fs := f }, a)
   | "c01" :: rest => (st, C01.handle rest)
   | "c02" :: rest => (st, C02.handle rest)
   | "c03" :: rest => (st, C03.handle rest)
